@@ -4,6 +4,7 @@ from props.gossip_common import *
 from props import wire
 
 from props import round_probe
+from props import consts_common
 ID = "C11"
 COQ_TARGETS = ["Run/Run_Gossip.vo", "Run/Run_Round.vo"]
 META = {
@@ -253,6 +254,11 @@ def run(ctx):
     cov["glue_probes"] = gcov
     cov["peer_selection_model"] = rcov
     cov["real_detector"] = fcov
+    # translator half of the tie: the constants of the current source, regenerated; the theorems on them re-checked
+    ccov, cviol = consts_common.regen(ctx, ID, binary)
+    cov["source_constants"] = ccov
+    if cviol and not any(v.get("found_input") for v in violations):
+        violations.append(cviol)
     return {"coverage": cov, "violations": violations, "known": known}
 
 
